@@ -231,7 +231,9 @@ func RunStep(t *testing.T, j job) (res stepResult) {
 				res.Diffs = append(res.Diffs, spec.Extra(ctx)...)
 			}
 			for _, df := range res.Diffs {
-				if spec.Classify != nil {
+				if k := KnownDefectClass(df, ctx); k != "" {
+					res.Classes = append(res.Classes, k)
+				} else if spec.Classify != nil {
 					res.Classes = append(res.Classes, spec.Classify(df, ctx))
 				} else {
 					res.Classes = append(res.Classes, DefaultClass(df))
@@ -254,8 +256,26 @@ func resKey(r Res) string {
 	return string(b)
 }
 
+// KnownDefectClass recognises defects of the unchanged tree that show up under several
+// properties (DESIGN.md §6); "" if the diff is not one of them.
+func KnownDefectClass(d Diff, c *StepCtx) string {
+	// AppendObject in a Suspended bucket extends the *current* version in place even when that
+	// version has a real version id (only the null version may be replaced).
+	if c.Op.Kind == "Append" {
+		if b := c.M.Buckets[c.Op.B]; b != nil && b.Versioning == "Suspended" {
+			if cur := b.Find(c.Op.K, "null"); cur != nil && cur.Birth == c.M.Step && cur.From != "" && cur.From != "null" && strings.Contains(d.Where, c.Op.B+"/"+c.Op.K) {
+				return "suspended-append-rewrites-non-null-version"
+			}
+		}
+	}
+	return ""
+}
+
 // DefaultClass is "<class>:<field>" where field is the last dotted component of Where.
 func DefaultClass(d Diff) string {
+	if d.Class == "immut" && strings.HasPrefix(d.Detail, "cause=") {
+		return "immut:lastmod:" + d.Detail[len("cause="):]
+	}
 	f := d.Where
 	if i := strings.LastIndexByte(f, '.'); i >= 0 {
 		f = f[i+1:]
@@ -346,7 +366,19 @@ func immutabilityDiffs(c *StepCtx) []Diff {
 				out = append(out, Diff{Class: "immut", Where: where + ".etag", Model: p.ETag, Impl: v.ETag})
 			}
 			if p.LastMod != v.LastMod {
-				out = append(out, Diff{Class: "immut", Where: where + ".lastmod", Model: time.Unix(0, p.LastMod).UTC().Format(time.RFC3339Nano), Impl: time.Unix(0, v.LastMod).UTC().Format(time.RFC3339Nano)})
+				// cause of the change, for known-finding classification
+				cause := "other"
+				switch {
+				case c.Op.Kind == "PutTagging" || c.Op.Kind == "DeleteTagging":
+					cause = "tagging"
+				case c.Op.Kind == "Transition":
+					cause = "transition"
+				case p.Latest && !v.Latest:
+					cause = "lost-latest"
+				case !p.Latest && v.Latest:
+					cause = "became-latest"
+				}
+				out = append(out, Diff{Class: "immut", Detail: "cause=" + cause, Where: where + ".lastmod", Model: time.Unix(0, p.LastMod).UTC().Format(time.RFC3339Nano), Impl: time.Unix(0, v.LastMod).UTC().Format(time.RFC3339Nano)})
 			}
 		}
 	}
@@ -605,4 +637,21 @@ func SpecByName(n string) *Spec {
 		panic("unknown spec " + n)
 	}
 	return s
+}
+
+// Merge adds the counters of another search (same Run) into s.
+func (s *Search) Merge(o *Search) {
+	s.States += o.States
+	s.Transitions += o.Transitions
+	s.Pruned += o.Pruned
+	for k, v := range o.Outcomes {
+		s.Outcomes[k] += v
+	}
+	for k, v := range o.Unasserted {
+		s.Unasserted[k] += v
+	}
+	for k, v := range o.DepthDone {
+		s.DepthDone[o.Spec.Name+"/"+k] = v
+	}
+	s.Stacks = append(append([]string{}, s.Stacks...), o.Stacks...)
 }
